@@ -196,34 +196,73 @@ def _const(node) -> bool:
     return isinstance(node, ast.UnaryOp) and _const(node.operand)
 
 
-def _skipping_returns(fn) -> int:
-    """number of `return`s that leave the function while statements that DO something would still follow (the shape of a
-    memo hit or a shortcut that skips steps).  Not counted: the return a path ends with; an early return of a constant
-    (`return None`); an early return whose continuation only chooses between result expressions — i.e. a conditional
-    expression written as `if …: return a` / `return b`, in whatever helper it lives."""
-    n = 0
+def _config_test(test, params) -> bool:
+    """does a condition depend on the *configuration* only — attributes of `self`, parameters compared with constants /
+    enum members / None — and not on data (anything computed: calls, subscripts, locals, membership in a container)?
+    `if self.keep_acs: return a` / `…; return b` is dispatch, the statement form of if/else; `if mask.sum() == 0: return`
+    or `if key in self._cache: return` is a shortcut taken for some inputs only."""
+    def leaf(n):
+        if isinstance(n, ast.Constant):
+            return True
+        if isinstance(n, ast.Attribute):
+            base = n
+            while isinstance(base, ast.Attribute):
+                base = base.value
+            # self.<option>, EnumClass.MEMBER
+            return isinstance(base, ast.Name) and (base.id in ("self", "cls") or base.id[:1].isupper())
+        return isinstance(n, ast.Name) and n.id in params
 
-    def walk(stmts, cont, in_loop):
+    def ok(n):
+        if isinstance(n, ast.BoolOp):
+            return all(ok(v) for v in n.values)
+        if isinstance(n, ast.UnaryOp) and isinstance(n.op, ast.Not):
+            return ok(n.operand)
+        if isinstance(n, ast.Compare):
+            if any(isinstance(o, (ast.In, ast.NotIn)) for o in n.ops):
+                # membership in a literal list / tuple of constants or enum members is dispatch; in a container is data
+                return leaf(n.left) and all(isinstance(c, (ast.List, ast.Tuple)) and all(leaf(e) for e in c.elts)
+                                            for c in n.comparators)
+            return leaf(n.left) and all(leaf(c) for c in n.comparators)
+        return leaf(n)
+    return ok(test)
+
+
+def _skipping_returns(fn) -> int:
+    """number of *data-dependent shortcuts*: `return`s that leave the function while statements that do something would
+    still follow, under a condition that depends on data (the shape of a memo hit, or of a special case that skips steps
+    for some inputs).  Not counted: the return a path ends with; an early return of a constant (`return None`); an early
+    return whose continuation only chooses between result expressions; an early return all of whose guards test the
+    configuration only (`if self.keep_acs: return …` — if/else in statement form, in whatever helper it lives)."""
+    n = 0
+    params = {a.arg for a in fn.args.posonlyargs + fn.args.args + fn.args.kwonlyargs}
+    stored = {}
+    for x in ast.walk(fn):
+        if isinstance(x, ast.Name) and isinstance(x.ctx, ast.Store):
+            stored[x.id] = True
+    params = {p for p in params if p not in stored}        # a re-bound parameter is a local
+
+    def walk(stmts, cont, in_loop, guards):
         nonlocal n
         for idx, st in enumerate(stmts):
             after = list(stmts[idx + 1:]) + cont
             if isinstance(st, ast.Return):
-                if in_loop or (after and not _const(st.value) and not _pure_return_tree(after)):
+                early = after and not _const(st.value) and not _pure_return_tree(after)
+                if in_loop or (early and not (guards and all(_config_test(g, params) for g in guards))):
                     n += 1
             elif isinstance(st, ast.If):
-                walk(st.body, after, in_loop)
-                walk(st.orelse, after, in_loop)
+                walk(st.body, after, in_loop, guards + [st.test])
+                walk(st.orelse, after, in_loop, guards + [st.test])
             elif isinstance(st, (ast.For, ast.While)):
-                walk(st.body, after, True)
-                walk(st.orelse, after, in_loop)
+                walk(st.body, after, True, guards)
+                walk(st.orelse, after, in_loop, guards)
             elif isinstance(st, ast.With):
-                walk(st.body, after, in_loop)
+                walk(st.body, after, in_loop, guards)
             elif isinstance(st, ast.Try):
                 for blk in (st.body, st.orelse, st.finalbody):
-                    walk(blk, after, in_loop)
+                    walk(blk, after, in_loop, guards)
                 for h in st.handlers:
-                    walk(h.body, after, in_loop)
-    walk(_body(fn), [], False)
+                    walk(h.body, after, in_loop, guards)
+    walk(_body(fn), [], False, [])
     return n
 
 
@@ -405,6 +444,11 @@ def _tree_expr(stmts):
     if isinstance(st, ast.AnnAssign) and isinstance(st.target, ast.Name) and st.value is not None:
         e = _tree_expr(rest)
         return None if e is None else _subst(e, {st.target.id: st.value})
+    if (isinstance(st, ast.Assign) and len(st.targets) == 1 and isinstance(st.targets[0], ast.Tuple)
+            and isinstance(st.value, ast.Tuple) and len(st.value.elts) == len(st.targets[0].elts)
+            and all(isinstance(t, ast.Name) for t in st.targets[0].elts)):
+        e = _tree_expr(rest)        # `a, b = x, y` (simultaneous)
+        return None if e is None else _subst(e, {t.id: v for t, v in zip(st.targets[0].elts, st.value.elts)})
     if isinstance(st, (ast.Pass,)) or (isinstance(st, ast.Expr) and isinstance(st.value, ast.Constant)):
         return _tree_expr(rest)
     return None
@@ -464,8 +508,25 @@ class _Inline(ast.NodeTransformer):
         return _Inline(self.scan, self.depth + 1).visit(_subst(e, _bind(fn, node, bound)))
 
 
+class _MapForm(ast.NodeTransformer):
+    """`(f(v) for v in X)` / `[f(v) for v in X]` as `map(f, X)` — one form for comprehension and `map`"""
+    def _conv(self, node):
+        self.generic_visit(node)
+        if len(node.generators) == 1:
+            g = node.generators[0]
+            e = node.elt
+            if (not g.ifs and not g.is_async and isinstance(g.target, ast.Name) and isinstance(e, ast.Call) and len(e.args) == 1
+                    and not e.keywords and isinstance(e.args[0], ast.Name) and e.args[0].id == g.target.id
+                    and isinstance(e.func, (ast.Name, ast.Attribute))):
+                return ast.Call(func=ast.Name(id="map", ctx=ast.Load()), args=[e.func, g.iter], keywords=[])
+        return node
+
+    visit_GeneratorExp = _conv
+    visit_ListComp = _conv
+
+
 def _inline(scan, node, depth=0):
-    return _Inline(scan, depth).visit(copy.deepcopy(node))
+    return _MapForm().visit(_Inline(scan, depth).visit(copy.deepcopy(node)))
 
 
 def _local_env(fn: ast.FunctionDef):
